@@ -1134,6 +1134,8 @@ SpecRead(k) ==
                  ELSE [res |-> "hit", rid |-> rb.rid, ver |-> recs[rb.rid].ver]
 
 C01_ReadMap == (up /\ Quiet) => \A k \in Keys : ~Colliding(k) => Agrees(k, SpecRead(k), ref[k], 1)
+\* a read never returns another key's record
+C13_NoAlias == (up /\ Quiet) => \A k \in Keys : LET r == SpecRead(k) IN r.res = "hit" => recs[r.rid].key = k
 C13_ReadMap == (up /\ Quiet) => \A k \in Keys : Colliding(k) => Agrees(k, SpecRead(k), ref[k], 3)
 NoFatal     == ~gh.fatal
 C04_Distinct == ~gh.dup /\ ~gh.stale
